@@ -292,6 +292,15 @@ func main() {
 	tB := raft.NewNetworkTransport(lb, 2, 300*time.Millisecond, io.Discard)
 	defer tA.Close()
 	defer tB.Close()
+	// the same pair again with MsgpackUseNewTimeFormat on one or both ends (a rolling change of the
+	// option): N sends, M receives, in the new time format
+	ln := &pipeLayer{addr: "N", accept: make(chan net.Conn, 16), peers: map[string]*pipeLayer{}, closed: make(chan struct{}), failAfter: -1}
+	lm := &pipeLayer{addr: "M", accept: make(chan net.Conn, 16), peers: map[string]*pipeLayer{}, closed: make(chan struct{}), failAfter: -1}
+	ln.peers["B"], ln.peers["M"], la.peers["M"] = lb, lm, lm
+	tN := raft.NewNetworkTransportWithConfig(&raft.NetworkTransportConfig{Stream: ln, MaxPool: 2, Timeout: 300 * time.Millisecond, MsgpackUseNewTimeFormat: true})
+	tM := raft.NewNetworkTransportWithConfig(&raft.NetworkTransportConfig{Stream: lm, MaxPool: 2, Timeout: 300 * time.Millisecond, MsgpackUseNewTimeFormat: true})
+	defer tN.Close()
+	defer tM.Close()
 	// responder on B: script set per exchange
 	type script struct {
 		resp  interface{}
@@ -302,8 +311,8 @@ func main() {
 	var scripts []script
 	var received []interface{}
 	var bodies [][]byte
-	go func() {
-		for rpc := range tB.Consumer() {
+	serve := func(ch <-chan raft.RPC) {
+		for rpc := range ch {
 			smu.Lock()
 			var sc script
 			if len(scripts) > 0 {
@@ -321,11 +330,13 @@ func main() {
 			}
 			rpc.Respond(sc.resp, sc.err)
 		}
-	}()
+	}
+	go serve(tB.Consumer())
+	go serve(tM.Consumer())
 	fh, _ := os.Create(*out)
 	w := bufio.NewWriter(fh)
 	st := &stats{Engine: "wire", Hist: map[string]int{}}
-	st.Rule = "two real NetworkTransports over net.Pipe with a byte recorder: AppendEntries 45% (byte slices nil/empty/around the fixstr-str16 and 64 KiB boundaries, integers around every width boundary, 0..3 or 15..17 entries, zero and non-zero times, response with or without an error string), pipelines of 2..8 AppendEntries with random handler delays 15%, RequestVote / RequestPreVote / TimeoutNow 20%, InstallSnapshot with a streamed body of 0..100000 bytes 10%, connection cut after k bytes of the request 10%; non-trivial = a request with at least one entry or a body, or a pipeline"
+	st.Rule = "two real NetworkTransports over net.Pipe with a byte recorder: AppendEntries 37% + 8% between transports whose MsgpackUseNewTimeFormat options differ or are both set (byte slices nil/empty/around the fixstr-str16 and 64 KiB boundaries, integers around every width boundary, 0..3 or 15..17 entries, zero and non-zero times, response with or without an error string), pipelines of 2..8 AppendEntries with random handler delays 15%, RequestVote / RequestPreVote / TimeoutNow 20%, InstallSnapshot with a streamed body of 0..100000 bytes 10%, connection cut after k bytes of the request 10%; non-trivial = a request with at least one entry or a body, or a pipeline"
 	take := func() ([]interface{}, [][]byte) {
 		smu.Lock()
 		defer smu.Unlock()
@@ -338,6 +349,36 @@ func main() {
 		take()
 		x := rng.Intn(100)
 		switch {
+		case x < 8: // AppendEntries between transports whose time-format options differ (or are both new)
+			req := genAE()
+			if len(req.Entries) == 0 || rng.Intn(2) == 0 {
+				req.Entries = append(req.Entries, &raft.Log{Index: ru64(), Term: ru64(), Data: rbytes(), AppendedAt: time.Unix(int64(rng.Intn(1<<31)), int64(rng.Intn(1000000000))).UTC()})
+			}
+			want := &raft.AppendEntriesResponse{RPCHeader: hdr(), Term: ru64(), LastLog: ru64(), Success: rng.Intn(2) == 0}
+			smu.Lock()
+			scripts = []script{{resp: want}}
+			smu.Unlock()
+			got := &raft.AppendEntriesResponse{}
+			var err error
+			combo := rng.Intn(3)
+			switch combo {
+			case 0:
+				err = tN.AppendEntries("B", "B", req, got) // new format -> default receiver
+			case 1:
+				err = tA.AppendEntries("M", "M", req, got) // default -> new-format receiver
+			default:
+				err = tN.AppendEntries("M", "M", req, got)
+			}
+			rec, _ := take()
+			recvOK := len(rec) == 1
+			if recvOK {
+				r, ok := rec[0].(*raft.AppendEntriesRequest)
+				recvOK = ok && aeEqual(r, req)
+			}
+			respOK := err == nil && reflect.DeepEqual(got, want)
+			fmt.Fprintf(w, "OT 0\n%d %d\n", b2i(recvOK), b2i(respOK))
+			st.Hist[fmt.Sprintf("append-entries-mixed-time-format-%d", combo)]++
+			st.Distinct++
 		case x < 45: // single AppendEntries
 			req := genAE()
 			want := &raft.AppendEntriesResponse{RPCHeader: hdr(), Term: ru64(), LastLog: ru64(), Success: rng.Intn(2) == 0, NoRetryBackoff: rng.Intn(2) == 0}
